@@ -5,6 +5,7 @@ import (
 	"strings"
 	"testing"
 
+	"github.com/miekg/dns"
 	"pgregory.net/rapid"
 
 	"verif/kit"
@@ -308,11 +309,98 @@ func c04Run(t kit.Fataler, base *kit.World, variants [][]kit.Line, qs []c01Q, re
 	}
 }
 
+// c04OwnVisible is the other half of the property: a record tagged with the
+// client's own location is served to that client.  For up to three (name,
+// client) pairs with a location (reference model), whose name is answered
+// authoritatively and without a CNAME, a TXT record tagged with that location
+// is added at the name; the client must get it, on every backend.
+func c04OwnVisible(t kit.Fataler, base *kit.World, qs []c01Q, record bool) {
+	served, cleanup, err := kit.ServeAll(base.Text(), base.Serial, []kit.Backend{kit.CDB}, kit.DefaultCompile, kit.HandlerOpts{})
+	if err != nil {
+		return
+	}
+	type pick struct {
+		x   c01Q
+		loc string
+	}
+	var picks []pick
+	var edits []kit.Line
+	seen := map[string]bool{}
+	hasCNAME := map[string]bool{}
+	for _, r := range base.RRs() {
+		if r.Type == 5 {
+			hasCNAME[r.Owner] = true
+		}
+	}
+	for _, x := range qs {
+		if len(picks) >= 3 {
+			break
+		}
+		lr := base.Locate(x.q.Name, x.c)
+		name := kit.CanonName(x.q.Name)
+		if lr.Loc == [2]byte{} || name == "" || seen[name] || hasCNAME[name] || strings.Contains(name, "*") || len(name) > 200 {
+			continue
+		}
+		q := x.q
+		q.Type, q.Class, q.MaxAns = 16, 1, 8
+		resp, _, err := kit.Ask(served[0].H, q, x.c)
+		if err != nil || resp == nil || !resp.Authoritative || (resp.Rcode != dns.RcodeSuccess && resp.Rcode != dns.RcodeNameError) {
+			continue
+		}
+		cn := false
+		for _, rr := range resp.Answer {
+			if rr.Header().Rrtype == dns.TypeCNAME {
+				cn = true
+			}
+		}
+		if cn {
+			continue
+		}
+		seen[name] = true
+		loc := string(lr.Loc[:])
+		picks = append(picks, pick{c01Q{q, x.c}, loc})
+		edits = append(edits, kit.Line{K: '\'', Owner: name, Text: []byte("own-location-marker " + name), TTL: -1, Loc: loc, N: none5})
+	}
+	cleanup()
+	if len(picks) == 0 {
+		return
+	}
+	v := withEdits(base, edits)
+	all, cleanup2, err := kit.ServeAll(v.Text(), v.Serial, kit.AllBackends, kit.DefaultCompile, kit.HandlerOpts{})
+	if err != nil {
+		kit.Fail(t, "C04", "compile-error", c04Case{Base: base, Edits: edits, Variant: string(v.Text())}, "world with own-location records failed to compile/open: %v", err)
+		return
+	}
+	defer cleanup2()
+	for _, p := range picks {
+		for _, s := range all {
+			resp, _, err := kit.Ask(s.H, p.x.q, p.x.c)
+			found := false
+			if resp != nil {
+				for _, rr := range resp.Answer {
+					if x, ok := rr.(*dns.TXT); ok && strings.HasPrefix(strings.Join(x.Txt, ""), "own-location-marker ") {
+						found = true
+					}
+				}
+			}
+			if !found {
+				c := c04Case{Base: base, Edits: edits, Variant: string(v.Text()), Query: p.x.q, Client: p.x.c, Backend: s.Backend.String(), Answers: []string{kit.Normal(resp, nil)}}
+				kit.Fail(t, "C04", "own-location-record-not-served/"+s.Backend.String(), c, "%s: a TXT record tagged %q was added at %s; the client %s (ecs %v), which the subnet maps place in %q, does not get it (err %v):\n%s", s.Backend, p.loc, p.x.q.Name, p.x.c.Resolver, p.x.c.ECS, p.loc, err, kit.Normal(resp, nil))
+			}
+		}
+		if record {
+			kit.Class("own-location-record-visible")
+			kit.NonTrivial("own|" + p.x.q.Name + "|" + p.loc + "|" + p.x.c.Resolver)
+		}
+	}
+}
+
 func TestC04(t *testing.T) {
 	if f := kit.ReplayFile(); f != "" {
 		var c c04Case
 		kit.LoadReplay(t, f, &c)
 		c04Run(t, c.Base, [][]kit.Line{c.Edits}, []c01Q{{c.Query, c.Client}}, false)
+		c04OwnVisible(t, c.Base, []c01Q{{c.Query, c.Client}}, false)
 		kit.Eval()
 		return
 	}
@@ -330,6 +418,7 @@ func TestC04(t *testing.T) {
 		}
 		kit.Case(c04Case{Base: base, Edits: ea, Variant: string(withEdits(base, eb).Text())})
 		c04Run(t, base, [][]kit.Line{ea, eb}, qs, true)
+		c04OwnVisible(t, base, qs, true)
 		kit.ClassN("queries", int64(nq))
 		kit.Sample(map[string]interface{}{"base": string(base.Text()), "edit_a": string((&kit.World{Lines: ea}).Text()), "edit_b": string((&kit.World{Lines: eb}).Text())})
 	}))
